@@ -262,7 +262,7 @@ func VerifSignSkipping(m []uint8, sk *[CryptoSecretKeyBytes]uint8, skip int, max
 				maxZ = n
 			}
 		}
-		zFail := polyVecLChkNorm(&z, GAMMA1-BETA) != 0
+		zFail := maxZ >= GAMMA1-BETA // decided on the exact norm, not through polyChkNorm
 		if zFail && skip&VerifSkipZ == 0 {
 			continue
 		}
@@ -277,7 +277,7 @@ func VerifSignSkipping(m []uint8, sk *[CryptoSecretKeyBytes]uint8, skip int, max
 				maxW0 = n
 			}
 		}
-		w0Fail := polyVecKChkNorm(&w0, GAMMA2-BETA) != 0
+		w0Fail := maxW0 >= GAMMA2-BETA
 		if w0Fail && skip&VerifSkipW0 == 0 {
 			continue
 		}
@@ -291,7 +291,7 @@ func VerifSignSkipping(m []uint8, sk *[CryptoSecretKeyBytes]uint8, skip int, max
 				maxCt0 = n
 			}
 		}
-		c0Fail := polyVecKChkNorm(&h, GAMMA2) != 0
+		c0Fail := maxCt0 >= GAMMA2
 		if c0Fail && skip&VerifSkipCt0 == 0 {
 			continue
 		}
